@@ -132,8 +132,22 @@ def extract_unit(u, bdir, tier='quick'):
         ex = Extractor(ast, repo_root=REPO, inst_cpp=inst, include_dirs=[os.path.join(REPO, 'include'), os.path.join(ROOT, 'stubs')],
                        workdir=bdir, clang_flags=u.get('clang_flags', []))
         contracts = os.path.join(u['dir'], u.get('contracts', 'contracts.c'))
-        text = ex.lower(u['roots'], parse_contract_file(contracts), exclude=u.get('exclude', ()),
-                        extern=u.get('extern', ()), opts=u.get('lower_opts'))
+        lc = parse_contract_file(contracts)
+        unmatched = []
+        try:
+            text = ex.lower(u['roots'], lc, exclude=u.get('exclude', ()), extern=u.get('extern', ()), opts=u.get('lower_opts'))
+        except ExtractError as e:
+            if 'loop contracts for loops that do not exist' not in str(e):
+                raise
+            # The loops of some function changed shape, so the contracts keyed by loop ordinal no longer attach. Fall back for exactly
+            # those functions: lower them without loop contracts; their obligations are then run with a small unwinding bound (class B).
+            ex.lower(u['roots'], {}, exclude=u.get('exclude', ()), extern=u.get('extern', ()), opts=u.get('lower_opts'))
+            for fn in sorted(set(f for f, _ in lc)):
+                n = ex.meta.get(fn, {}).get('loops')
+                if n is None or set(range(n)) != set(k for f, k in lc if f == fn):
+                    unmatched.append(fn)
+            lc = {k: v for k, v in lc.items() if k[0] not in unmatched}
+            text = ex.lower(u['roots'], lc, exclude=u.get('exclude', ()), extern=u.get('extern', ()), opts=u.get('lower_opts'))
         text = run_probe(ex, text, inst, [os.path.join(REPO, 'include'), os.path.join(ROOT, 'stubs')], bdir,
                          clang_flags=u.get('clang_flags', []))
     except ExtractError as e:
@@ -143,7 +157,7 @@ def extract_unit(u, bdir, tier='quick'):
             os.unlink(ast)
     open(os.path.join(bdir, 'unit.c'), 'w').write(text)
     meta = {'functions': ex.meta, 'externs': ex.externs, 'records': ex.records_used,
-            'layout_asserts': ex.layout_asserts, 'extract_s': round(time.time() - t0, 2)}
+            'layout_asserts': ex.layout_asserts, 'extract_s': round(time.time() - t0, 2), 'loops_unmatched': unmatched}
     # the layout self-check is decided by a native compile of the lowered text
     pre = []
     for p_ in u.get('first_includes', []):
@@ -159,6 +173,8 @@ def extract_unit(u, bdir, tier='quick'):
     need = u.get('loop_contracts_required', [])
     loops = parse_contract_file(contracts)
     for fn in need:
+        if fn in unmatched:
+            continue
         n = ex.meta.get(fn, {}).get('loops')
         if n is None:
             raise ToolFailure('unit %s: function %s (loop contracts required) was not extracted' % (u['name'], fn))
@@ -279,7 +295,7 @@ def run_obligation1(u, ob, bdir, trace=False):
         target = gb1
     cb = ['cbmc', target, '--json-ui'] + CBMC_CHECKS + ob['flags']
     if ob.get('unwind') is not None:
-        cb += ['--unwind', str(ob['unwind']), '--unwinding-assertions']
+        cb += ['--unwind', str(ob['unwind'])] + ([] if ob.get('no_unwinding_assertions') else ['--unwinding-assertions'])
         if ob.get('recursion') is not None:
             # tighter bound for the recursive red-black fix-ups (still guarded by unwinding assertions)
             try:
@@ -497,6 +513,15 @@ def check(prop, tier, only=None):
                 shutil.rmtree(bdir)
             metas[u['name']] = extract_unit(u, bdir, tier)
             bdirs[u['name']] = bdir
+            for fn in metas[u['name']].get('loops_unmatched', []):
+                for ob in obs:
+                    if ob.get('function') == fn and ob.get('loops'):
+                        k = ob.get('fallback_unwind', 4)
+                        ob.update(loops=False, unwind=k, no_unwinding_assertions=True, cls='B',
+                                  expect_kinds=[x for x in ob.get('expect_kinds', []) if 'loop' not in x and x != 'decreases'],
+                                  bound='the loops of %s changed shape, so its loop contracts (keyed by loop ordinal) no longer attach: the loops are '
+                                        'unwound %d times instead and longer runs are not explored' % (fn, k))
+                print('NOTE unit %s: loop contracts of %s do not attach to the current code; falling back to a bounded run' % (u['name'], fn))
             assumptions += scan_assumptions(u)
             assumptions += u.get('assumptions', [])
         with concurrent.futures.ThreadPoolExecutor(max_workers=JOBS) as ex:
